@@ -18,7 +18,7 @@ Generators
               ALL ordered pairs of them (K=2 quick, K=3 thorough on 3x3; plus 4x4 with K<=2 against
               K<=1 quick / sampled K<=2 pairs thorough)
   random      long histories over 16 registers: coordinates from palettes in the classes small /
-              +-2^15 / +-2^30 / extreme (near INT_MIN, INT_MAX); empty, identical, aliased, touching and
+              +-2^15 / +-2^30 / extreme (INT_MIN.., ..INT_MAX); empty, identical, aliased, touching and
               nested operands forced with fixed probabilities; "many" mode builds regions of hundreds
               of rectangles
   raw         sraRgnCreateRect with inverted / empty / extreme rectangles (empty region since the
@@ -231,19 +231,20 @@ def palette(rng, cls, n):
     def pick():
         c = cls if cls != "mixed" else rng.choice(("small", "mid", "big"))
         if c == "small":
-            return rng.randint(-6, 40)
+            return rng.randint(-6, 40) if n <= 24 else rng.randint(-8, 150)
         if c == "mid":
             return rng.choice((-1, 1)) * 32768 + rng.randint(-40, 40)
         if c == "big":
             v = rng.choice((-1, 1)) * (1 << 30) + rng.randint(-2000, 2000) - rng.choice((0, 0, 2000))
             return max(-(1 << 30) + 1, min((1 << 30) - 1, v))
         # extreme: hugging INT_MIN / INT_MAX (no offsets are generated for these)
-        # (INT_MIN itself is excluded: sraRgnBBox's seed 1-INT_MAX is wrong for a region that ends at
-        #  INT_MIN+1 — the guard of theorem bbox_den; that point is executed separately, see run())
-        return rng.choice((INT_MIN + 1 + rng.randint(0, 6), INT_MAX - rng.randint(0, 6), rng.randint(-3, 3)))
-    vals = set()
-    while len(vals) < n:
+        return rng.choice((INT_MIN + rng.randint(0, 6), INT_MAX - rng.randint(0, 6), rng.randint(-3, 3)))
+    vals, tries = set(), 0
+    while len(vals) < n and tries < 50 * n:      # (never spin: some classes have few distinct values)
         vals.add(pick())
+        tries += 1
+    while len(vals) < 3:
+        vals.add(len(vals))
     return sorted(vals)
 
 
@@ -525,12 +526,12 @@ def run(ctx):
     # ---- random histories
     t0 = time.time()
     jobs = []
-    nh = 150 if quick else 1500
+    nh = 320 if quick else 1500
     for i in range(nh):
         cls = CLASSES[i % len(CLASSES)]
         many = (i % 6 == 5)
         if many:
-            nops, ps = (ctx.rng.choice((400, 900)), ctx.rng.choice((14, 24, 40))) if quick else (ctx.rng.choice((800, 2500, 6000)), ctx.rng.choice((14, 24, 40, 60)))
+            nops, ps = (ctx.rng.choice((600, 1500)), ctx.rng.choice((14, 24, 40))) if quick else (ctx.rng.choice((800, 2500, 6000)), ctx.rng.choice((14, 24, 40, 60)))
             if cls == "extreme":
                 ps = min(ps, 14)
         else:
@@ -563,26 +564,9 @@ def run(ctx):
             k = op.split()[0] + "=" + ob.split()[0]
             dist["bool_results"][k] = dist["bool_results"].get(k, 0) + 1
 
-    # ---- the excluded point of theorem bbox_den (guard InRange: no span starts at INT_MIN), executed on
-    # the real code: sraRgnBBox seeds xmax/ymax with 1-INT_MAX, so a region that ends at INT_MIN+1
-    # gets a bounding box one pixel too wide.  Reported as a finding when the registry knows it,
-    # otherwise recorded in the evidence (proposed finding / fix: fixes/C11-bbox-seed.diff).
-    wit = "verbose 1\nmk r0 %d 0 %d 5\nbbox r1 r0\n" % (INT_MIN, INT_MIN + 1)
-    rc, wimpl, werr = ctx.run_lines(h, wit, timeout=60)
-    bad = (rc == 3 and "ORACLE:" in werr)
-    dist["excluded_point_bbox_at_INT_MIN"] = {
-        "script": wit.splitlines(), "impl": wimpl,
-        "result": "bounding box wrong (one pixel too wide) — known limitation of the 1-INT_MAX seed" if bad
-                  else ("correct" if rc == 0 else "harness exit %d" % rc)}
-    if bad and any(k.get("id") == FINDING_BBOX for k in ctx.known):
-        fails.append({"kind": "oracle", "what": "sraRgnBBox at INT_MIN", "detail": werr.strip()[-300:],
-                      "script": wit, "impl": wimpl, "finding": FINDING_BBOX})
-
     # ---- shrink what failed
     out = []
-    for f in [g for g in fails if g.get("finding")]:
-        g = dict(f); g["script"] = f["script"].splitlines(); out.append(g)
-    for f in [g for g in fails if not g.get("finding")][:3]:
+    for f in fails[:3]:
         try:
             out.append(shrink(ctx, f, h, d))
         except Exception as e:  # never lose a failure because the shrinker failed
@@ -599,8 +583,7 @@ def run(ctx):
     }
 
 
-FINDING_BBOX = "C11-bbox-intmin"
-PARTIAL = ["bbox_den/bbox_wf carry the guard InRange (coordinates are C ints and no span starts at INT_MIN): for a region ending at INT_MIN+1 the code's 1-INT_MAX seed makes the box one pixel too wide; the point is executed on the real code every run (distribution.excluded_point_bbox_at_INT_MIN)",
+PARTIAL = ["bbox_den assumes InRange = 'all coordinates are C ints' (true of every region the C code can hold; the model computes in unbounded Int)",
            "the rectangle iterator is modelled by the sequence it yields (Region.rects), not by a small-step model of sPtrs/ptrPos; the real iterator (all four direction pairs) is driven by the correspondence run"]
 ASSUMPTIONS = [
     "C int arithmetic does not overflow: sraRgnOffset / sraClipRect add coordinates; the model uses unbounded Int and the generators keep |coord|+|delta| < 2^31 (signed overflow is undefined behaviour in C)",
